@@ -25,17 +25,15 @@ theorem deliverNotifiers_good (i : Nat) (n : Notif) (k : Nat) : ∀ w : TW, Good
         split
         · obtain ⟨g2, f2⟩ := pushB_good k _ g1 hr
           exact ⟨g2, f1.trans f2.fl⟩
-        · split
-          · exact ⟨g1, f1⟩
-          · have hwf : Stage.wf (.op2n st (.hot j) true nt) := g1.wf k _ hk
-            have g2 : GoodW none (w1.setStage k (.op2n st (.hot j) false nt)) :=
-              Good.stage_same g1 hk (fun h hm => hm) (fun h hm _ _ _ => hm) rfl hwf
-                (Or.inr hr) rfl
-            have hr2 : ReachedW none (w1.setStage k (.op2n st (.hot j) false nt)) (k + 1) :=
-              Reached.frame hr g1 (map_set_same _ _ _ _ _ hk rfl) (SubKeep.refl _)
-            have f2 : Fl w1 (w1.setStage k (.op2n st (.hot j) false nt)) := ⟨rfl, rfl, rfl⟩
-            obtain ⟨g3, f3⟩ := pushB_good k _ g2 hr2
-            exact ⟨g3, (f1.trans f2).trans f3.fl⟩
+        · have hwf : Stage.wf (.op2n st (.hot j) true nt) := g1.wf k _ hk
+          have g2 : GoodW none (w1.setStage k (.op2n st (.hot j) false nt)) :=
+            Good.stage_same g1 hk (fun h hm => hm) (fun h hm _ _ _ => hm) rfl hwf
+              (Or.inr hr) rfl
+          have hr2 : ReachedW none (w1.setStage k (.op2n st (.hot j) false nt)) (k + 1) :=
+            Reached.frame hr g1 (map_set_same _ _ _ _ _ hk rfl) (SubKeep.refl _)
+          have f2 : Fl w1 (w1.setStage k (.op2n st (.hot j) false nt)) := ⟨rfl, rfl, rfl⟩
+          obtain ⟨g3, f3⟩ := pushB_good k _ g2 hr2
+          exact ⟨g3, (f1.trans f2).trans f3.fl⟩
       · exact ⟨g1, f1⟩
     · exact ⟨g1, f1⟩
 
@@ -46,7 +44,7 @@ def emitSrc (w w1 : TW) (i : Nat) (n : Notif) : TW :=
     if i = j && w.srcSubscribed && w.srcAlive then
       match n with
       | .next _ => w1.push 0 [n]
-      | _ => if fin w.stages then w1 else { w1 with srcAlive := false }.push 0 [n]
+      | _ => { w1 with srcAlive := false }.push 0 [n]
     else w1
   | _ => w1
 
@@ -74,13 +72,11 @@ theorem emitSrc_good {w w1 : TW} (i : Nat) (n : Notif) (g : GoodW none w) (g1 : 
       split
       · obtain ⟨g2, f2⟩ := push_good 0 _ g1 hr
         exact ⟨g2, f1.trans f2.fl⟩
-      · split
-        · exact ⟨g1, f1⟩
-        · have g2 : GoodW none ({ w1 with srcAlive := false } : TW) :=
-            Good.srcAlive g1 false (Or.inl rfl)
-          have f2 : Fl w1 ({ w1 with srcAlive := false } : TW) := ⟨rfl, rfl, rfl⟩
-          obtain ⟨g3, f3⟩ := push_good (w := { w1 with srcAlive := false }) 0 _ g2 hr
-          exact ⟨g3, (f1.trans f2).trans f3.fl⟩
+      · have g2 : GoodW none ({ w1 with srcAlive := false } : TW) :=
+          Good.srcAlive g1 false (Or.inl rfl)
+        have f2 : Fl w1 ({ w1 with srcAlive := false } : TW) := ⟨rfl, rfl, rfl⟩
+        obtain ⟨g3, f3⟩ := push_good (w := { w1 with srcAlive := false }) 0 _ g2 hr
+        exact ⟨g3, (f1.trans f2).trans f3.fl⟩
     · exact ⟨g1, f1⟩
   · exact ⟨g1, f1⟩
 
